@@ -37,6 +37,18 @@ def unlist(tok):
     return [] if tok == "." else [unhex(x) for x in tok.split(",")]
 
 
+def configured_prefixes(tok):
+    """the path prefixes of the CONFIGURED ingresses ("<hex scheme://host>/<hex path>" joined by ','): "every ingress prefix" of
+    the property text - each configured ingress path, trailing slashes dropped; letter case matters in a path"""
+    out = []
+    for x in ([] if tok == "." else tok.split(",")):
+        _, ph = x.split("/")
+        q = unhex(ph).rstrip(b"/")
+        if q not in out:
+            out.append(q)
+    return out
+
+
 def under_owned(prefixes, path):
     """property text: the path lies under an ingress prefix's /oauth2 subtree"""
     for p in prefixes:
@@ -87,7 +99,7 @@ def monitor_router(ctx, infile, implfile):
             if t[0] != "rtroute":
                 continue
             n += 1
-            mode, prefixes = int(t[1]), unlist(t[3])
+            mode, prefixes = int(t[1]), configured_prefixes(t[3])
             method, raw, path = unhex(t[4]), unhex(t[5]), unhex(t[6])
             hmode, hdest, accepts, acrm = unhex(t[7]), unhex(t[8]), unlist(t[9]), unhex(t[10])
             hit, status, nocache, _ = [int(x) for x in lo.split()]
@@ -413,13 +425,13 @@ def run(ctx):
     ctx.rule = ("router: methods {GET,HEAD,POST,PUT,DELETE,OPTIONS,PATCH,TRACE,CONNECT,FOO} x paths over segments "
                 "{oauth2,login,logout,callback,local,frontchannel,session,refresh,forwardauth,ping,x,'',..,%2F,%6Fauth2,oauth2%2Fsession,sess%69on,...} "
                 "to depth 3 (depth 4 below the mount) x bases {'',/other,each prefix} x 14 fixed configurations (standalone / sso server / sso proxy, "
-                "idporten, OpenTelemetry on, prefix sets incl. nested) + 24 random prefix sets (depth 2); header sweep Sec-Fetch-Mode x Sec-Fetch-Dest x Accept x method x preflight; "
+                "idporten, OpenTelemetry on, prefix sets incl. nested) + 24 random prefix sets (depth 2) + 12 fixed and 12 random ingress LISTS as an operator may write them (paths differing only in letter case, hosts differing only in case, trailing slashes, duplicates, nested, same path on two hosts; requests aimed at the CONFIGURED prefixes, ParseIngresses compared with the model, kind rtingress); header sweep Sec-Fetch-Mode x Sec-Fetch-Dest x Accept x method x preflight; "
                 "random routing keys set directly; random request targets through net/http's request-line parser; "
                 "distinct_nontrivial counts distinct (mode, handler, status, nocache, raw-path?, method class) signatures under owned paths; "
                 "htmlesc: all single bytes, all triples over 20 special characters, scheme case/fold variants, structured random and raw random "
                 "values in all three template positions; owned: 6 stack configurations (memory / redis, prefix, ID-token forwarding, inactivity, PAR, SSO server, login rate limit, legacy cookie) + SSO proxy (server up / down) x session states "
                 "{none, garbage, undecryptable, valid, token expired, refreshed, after front-channel / local / full logout, ended} x "
-                "every owned endpoint x 9 methods x 4 header sets, escaped spellings; responses scanned for every token the fake provider minted")
+                "every owned endpoint x 9 methods x 4 header sets, escaped spellings, absolute-form / scheme-only request targets; a standalone deployment with case-variant / duplicate / nested ingress paths swept under every configured prefix; responses scanned for every token the fake provider minted")
     ctx.assumptions += [
         "chi's radix tree is abstracted to a flat table (exact match first, else longest catch-all prefix); the abstraction is "
         "tied to chi v5.2.1 only by the differential sweep and the chi.Walk table comparison",
